@@ -40,6 +40,14 @@ var hostile = []string{
 	"new Uint8Array(3)", "new Uint8Array(0)", "new Float64Array([1.5, NaN])", "new ArrayBuffer(8)", "new DataView(new ArrayBuffer(4))", "new Int16Array([1,-1])",
 	"function(){}", "function(){ throw new Error('cb') }", "new Date(0)", "/re/", "new Map([[1,2]])", "new Set([1])", "new Proxy({}, {})", "new Proxy({}, {get: function(){ throw new Error('px') }})",
 	"Object.create(null)", "globalThis", "arguments", "new Error('e')",
+	// objects that change or lie while they are being read: a key that disappears during the walk, keys the target does not have,
+	// iterators without a callable next
+	"({get a(){ delete this.b; return 1 }, b: 2, c: 3})", "({get a(){ delete this.a; delete this.b; return 'x' }, b: 2})",
+	"new Proxy({}, {ownKeys: function(){ return ['a'] }, getOwnPropertyDescriptor: function(){ return {enumerable: true, configurable: true, value: '1'} }})",
+	"new Proxy({a: 1}, {get: function(t, k){ return k === 'a' ? undefined : t[k] }})",
+	"({[Symbol.iterator]: function(){ return {} }})", "({[Symbol.iterator]: function(){ return {next: 5} }})", "[{[Symbol.iterator]: function(){ return {next: 5} }}]",
+	"[{[Symbol.iterator]: function(){ return {} }}]", "({[Symbol.iterator]: function(){ return null }})", "({[Symbol.iterator]: 1})",
+	"({length: 9007199254740991})", "({length: 1e12})", "({length: -9007199254740991})",
 	"__buf", "__url", "__usp", "__it", "__timeout", "__interval", "__immediate", "Buffer", "URL", "URLSearchParams",
 }
 
@@ -175,7 +183,8 @@ function __fresh(){ __buf = Buffer.from([1,2,3,4,5,6,7,8,9,10]); __url = new URL
 		}
 	}
 
-	receivers := []string{"", "", "", "undefined", "null", "({})", "1", `"s"`, "__buf", "__url", "__usp", "__it", "new Uint8Array(4)", "Buffer", "__timeout", "Object.create(Buffer.prototype)", "Object.create(URL.prototype)", "Object.create(URLSearchParams.prototype)"}
+	receivers := []string{"", "", "", "undefined", "null", "({})", "1", `"s"`, "__buf", "__url", "__usp", "__it", "new Uint8Array(4)", "Buffer", "__timeout", "Object.create(Buffer.prototype)", "Object.create(URL.prototype)", "Object.create(URLSearchParams.prototype)",
+		"({length: 9007199254740991})", "({length: 1e12})", "({length: 3, 0: 1, 1: 2, 2: 3})", "({length: -1})", "[1, 2, 3]", "new Uint16Array(new ArrayBuffer(8), 4, 2)", "new DataView(new ArrayBuffer(8), 4, 2)"}
 
 	// ---- typed sweep: for the string-handling Buffer natives every combination of small pools of well-typed arguments
 	// (sizes x strings x encoding names) in the argument shapes these functions take. Random draws from the hostile alphabet
@@ -374,6 +383,40 @@ function __fresh(){ __buf = Buffer.from([1,2,3,4,5,6,7,8,9,10]); __url = new URL
 			}
 			out.Add("crashed", desc, true, tags...)
 			out.Count("family", "reentrant-callback")
+			continue
+		}
+		if c%12 == 4 { // a function of the library handed to a built-in that calls it back and USES what it returns
+			f := targets[r.Intn(len(targets))]
+			fn := f.path
+			if f.recv != "" && r.Chance(50) {
+				fn = "(" + f.path + ").bind(" + f.recv + ")"
+			}
+			callExpr := "var F = " + fn + "; " + r.Pick([]string{
+				"[1, 2, 3].reduce(F)", "[1, 2, 3].reduceRight(F)", "[1, 2].some(F)", "[1, 2].find(F)", "[3, 1, 2].sort(F)", "[1, 2].map(F).join()", "[1, 2].filter(F)",
+				"'abc'.replace('b', F)", "'abcb'.replace(/b/g, F)", "Array.from([1, 2], F)", "new Map([[1, 2]]).forEach(F)", "JSON.parse('{\"a\":1}', F)",
+				"Promise.resolve('a').then(F).then(function(x){ return String(x) }); Promise.resolve('b').then(F)", "Promise.reject(1).catch(F).then(F)",
+				"String({toString: F})", "Number({valueOf: F})", "[F, F].join()"})
+			script := "__fresh(); (function(){ try { " + callExpr + "; return 'ok' } catch (e) { return 'throw' } })()"
+			lib.Breadcrumb(outPath, callExpr)
+			res, hung := call(script)
+			id := len(out.Cases)
+			desc := map[string]interface{}{"call": callExpr, "outcome": res.kind}
+			tags := []string{"library-function-as-callback", f.path}
+			switch {
+			case hung:
+				out.Fail(id, "hang", desc, tags...)
+				vm = newVM()
+			case res.kind == "panic":
+				desc["panic"] = res.msg
+				out.Fail(id, "go-panic-escaped", desc, tags...)
+				vm = newVM()
+			case res.kind == "uncaught":
+				desc["error"] = res.msg
+				out.Fail(id, "uncatchable-error", desc, tags...)
+			}
+			out.Add("crashed", desc, true, tags...)
+			out.Count("family", "library-function-as-callback")
+			out.Count("outcome", res.kind)
 			continue
 		}
 		if c%12 == 10 { // objects whose conversion hook IS a function of the library (no user-written function anywhere in the chain)
